@@ -179,6 +179,8 @@ impl StorageEngine {
     fn get_shard(&self, db: DatabaseIndex, key: &[u8]) -> Result<&Arc<RwLock<DatabaseShard>>> {
         let database = self.databases.get(db).ok_or(StorageError::InvalidDatabase)?;
         let shard_idx = self.get_shard_index(key);
+        #[cfg(feature = "verif")]
+        crate::verif::yield_point(crate::verif::site::SHARD, db as u64, shard_idx as u64);
         Ok(&database.shards[shard_idx])
     }
     
@@ -2450,6 +2452,8 @@ impl StorageEngine {
     fn expiration_cleanup_loop(engine: Arc<StorageEngine>) {
         loop {
             thread::sleep(Duration::from_secs(1)); // Check every second
+            #[cfg(feature = "verif")]
+            crate::verif::yield_point(crate::verif::site::SWEEP_WAKE, 0, 0);
             
             for database in &engine.databases {
                 let now = Instant::now();
@@ -2470,6 +2474,8 @@ impl StorageEngine {
                     
                     // Remove expired keys with write lock
                     if !expired_keys.is_empty() {
+                        #[cfg(feature = "verif")]
+                        crate::verif::yield_point(crate::verif::site::SWEEP_COLLECTED, 0, expired_keys.len() as u64);
                         let mut shard_guard = shard.write().unwrap();
                         for key in expired_keys {
                             if let Some(stored_value) = shard_guard.data.remove(&key) {
@@ -2485,7 +2491,60 @@ impl StorageEngine {
                     }
                 }
             }
+            #[cfg(feature = "verif")]
+            crate::verif::yield_point(crate::verif::site::SWEEP_PASS_DONE, 0, 0);
         }
+    }
+}
+
+#[cfg(feature = "verif")]
+impl StorageEngine {
+    /// Side-effect-free canonical copy of one database (no lazy expiry, read locks only).
+    /// Panics if a shard lock is held (the simulator only calls it while every thread is parked
+    /// outside the storage locks).
+    pub fn verif_dump(&self, db: DatabaseIndex) -> Vec<crate::verif::DumpEntry> {
+        use crate::verif::{DumpEntry, DumpValue};
+        let mut out = Vec::new();
+        let database = match self.databases.get(db) { Some(d) => d, None => return out };
+        let now = Instant::now();
+        let rel = |t: Instant| -> i128 {
+            if t >= now { t.duration_since(now).as_nanos() as i128 } else { -(now.duration_since(t).as_nanos() as i128) }
+        };
+        for shard in &database.shards {
+            let guard = shard.try_read().expect("verif_dump: shard lock held");
+            for (key, stored) in guard.data.iter() {
+                let value = match &stored.value {
+                    Value::String(b) => DumpValue::String(b.clone()),
+                    Value::List(l) => DumpValue::List(l.iter().cloned().collect()),
+                    Value::Set(s) => { let mut v: Vec<Vec<u8>> = s.iter().cloned().collect(); v.sort(); DumpValue::Set(v) }
+                    Value::Hash(h) => { let mut v: Vec<(Vec<u8>, Vec<u8>)> = h.iter().map(|(k, v)| (k.clone(), v.clone())).collect(); v.sort(); DumpValue::Hash(v) }
+                    Value::SortedSet(z) => {
+                        match z.verif_check_invariants() {
+                            Ok((items, _)) => DumpValue::ZSet(items),
+                            Err(e) => DumpValue::ZSetBroken(e),
+                        }
+                    }
+                    Value::Stream(st) => {
+                        let last = st.verif_last_id();
+                        DumpValue::Stream { entries: st.verif_entries(), last_id: (last.millis(), last.seq()) }
+                    }
+                };
+                out.push(DumpEntry {
+                    key: key.clone(),
+                    value,
+                    ttl_ns: stored.metadata.expires_at.map(rel),
+                    index_ttl_ns: guard.expiring_keys.get(key).map(|t| rel(*t)),
+                });
+            }
+            // index entries without a data entry are reported with an empty-string marker value
+            for (key, t) in guard.expiring_keys.iter() {
+                if !guard.data.contains_key(key) {
+                    out.push(DumpEntry { key: key.clone(), value: DumpValue::List(Vec::new()), ttl_ns: None, index_ttl_ns: Some(rel(*t)) });
+                }
+            }
+        }
+        out.sort_by(|a, b| a.key.cmp(&b.key));
+        out
     }
 }
 
